@@ -232,4 +232,59 @@ theorem asc_nodup (kb : KB) (h : Asc kb) : (kb.map (·.1)).Nodup := by
     have := h.1 b hb
     omega
 
+/-! ### signature depth -/
+
+theorem nodesList_eq_zero : (ks : List PK) → (nodesList ks = 0 ↔ ks = [])
+  | [] => by simp [nodesList]
+  | k :: rest => by simp [nodesList]
+
+mutual
+theorem recDepthKey_spec (limit : Nat) : (count : Nat) → (k : PK) →
+    ((recDepthKey limit count k).2 = true ↔ (nodes k = 0 ∨ count + nodes k ≤ limit)) ∧
+    ((recDepthKey limit count k).2 = true → (recDepthKey limit count k).1 = count + nodes k)
+  | count, .leaf _ => by simp [recDepthKey, nodes]
+  | count, .multi ks => by
+    have ih := recDepth_spec limit count ks
+    simp only [recDepthKey, nodes, nodesList_eq_zero]
+    exact ih
+theorem recDepth_spec (limit : Nat) : (count : Nat) → (ks : List PK) →
+    ((recDepth limit count ks).2 = true ↔ (ks = [] ∨ count + nodesList ks ≤ limit)) ∧
+    ((recDepth limit count ks).2 = true → (recDepth limit count ks).1 = count + nodesList ks)
+  | count, [] => by simp [recDepth, nodesList]
+  | count, k :: rest => by
+    have ih1 := recDepthKey_spec limit (count + 1) k
+    rw [recDepth]
+    rcases hr : recDepthKey limit (count + 1) k with ⟨c, b⟩
+    rw [hr] at ih1
+    cases b with
+    | false =>
+      simp only [nodesList] at ih1 ⊢
+      simp at ih1 ⊢
+      omega
+    | true =>
+      have hc : c = count + 1 + nodes k := ih1.2 rfl
+      have h1 := ih1.1.1 rfl
+      simp only []
+      by_cases hgt : c > limit
+      · simp only [if_pos hgt, nodesList]
+        simp
+        omega
+      · have ih2 := recDepth_spec limit c rest
+        simp only [if_neg hgt, nodesList]
+        refine ⟨?_, ?_⟩
+        · rw [ih2.1]
+          have := nodesList_eq_zero rest
+          simp
+          constructor
+          · rintro (h | h)
+            · have := this.2 h; omega
+            · omega
+          · intro h; right; omega
+        · intro h; rw [ih2.2 h]; omega
+end
+
+theorem validDepth_spec (limit : Nat) (ks : List PK) :
+    validDepth limit ks = true ↔ (ks = [] ∨ 1 + nodesList ks ≤ limit) :=
+  (recDepth_spec limit 1 ks).1
+
 end Posmint.Keys
